@@ -132,6 +132,9 @@ func rlBoolLit(f string) string {
 func rlNames(idx []int) string {
 	var out []string
 	for _, i := range idx {
+		if i == 0 {
+			out = append(out, `"UNSPECIFIED"`) // the explicitly declared zero option
+		}
 		if i >= 1 && i <= len(rlEnumOptions) {
 			out = append(out, fmt.Sprintf("%q", rlEnumOptions[i-1]))
 		}
@@ -320,7 +323,7 @@ type rlUnit struct {
 func rlFileText(units []rlUnit, o rlOpts) string {
 	var sb strings.Builder
 	sb.WriteString("package " + rlPkg + "\n\n")
-	usesEnum, usesObj := false, false
+	usesEnum, usesObj, zeroNamed := false, false, false
 	for _, u := range units {
 		sb.WriteString("object " + u.Msg + " {\n")
 		if o.Anchor {
@@ -329,10 +332,19 @@ func rlFileText(units []rlUnit, o rlOpts) string {
 		sb.WriteString(rlFieldText("subject", u.Decl, o, "  "))
 		sb.WriteString("}\n\n")
 		usesEnum = usesEnum || u.Decl.Kind == "enum"
+		for _, l := range [][]int{u.Decl.In, u.Decl.NotIn, u.Decl.Dfilt} {
+			for _, i := range l {
+				zeroNamed = zeroNamed || i == 0
+			}
+		}
 		usesObj = usesObj || u.Decl.Kind == "object"
 	}
 	if usesEnum {
 		sb.WriteString("enum Color {\n")
+		if zeroNamed {
+			// R "Enum": the zero value may be "explicitly included (as UNSPECIFIED)"; needed to name it in a rule
+			sb.WriteString("  option UNSPECIFIED\n")
+		}
 		for i, n := range rlEnumOptions {
 			if o.EnumNums {
 				sb.WriteString(fmt.Sprintf("  option %s {\n    number = %d\n  }\n", n, i+1))
